@@ -618,4 +618,79 @@ Proof.
     change (x' :: sm ps (exM d al) b') with ([x'] ++ sm ps (exM d al) b').
     unfold hsadd. cbn [map]. constructor; [|exact IH]. inversion Hsingle; subst. assumption.
 Qed.
+
+Lemma item_corr2 lead cat_fix str_white resub_fix va_fix d i :
+  wf_src2 i -> List.length fs = S d ->
+  map sp (item_out lead cat_fix str_white resub_fix va_fix tb d [None] i) = map sph (sitem_out2 d i).
+Proof.
+  intros [Hokd Hi] Hfs. destruct i as [l|t lp a more rp]; cbn [item_out sitem_out2].
+  - rewrite (EI_plain fs) by assumption.
+    apply (corrG (S d) [None]).
+    + apply (forallb_impl (src_tok fs) (okt2 tb)); [|assumption].
+      intros x Hx. unfold src_tok in Hx. apply andb_true_iff in Hx. destruct Hx as [Hf _]. now apply (okf_okt2 fs).
+    + apply rel_hl0; [reflexivity|]. apply (forallb_impl okd tx); [apply okd_tx|exact Hokd].
+  - destruct Hi as (Hid & Hdef & Hlp & Hrp & Ha & Hmore & n0 & ps & b & Hfl & Hlps).
+    destruct (fun_facts fs Hwf n0 ps b (flookup_In _ _ _ Hfl)) as (Hb & Hps & Hnd & Hva & Hno & Hpar & Hne).
+    pose proof (flookup_name _ _ _ Hfl) as Hname. cbn [fname] in Hname. subst n0.
+    pose proof (args_of_call a more Ha Hmore) as Hargs.
+    assert (Hlen : List.length (a :: map snd more) = List.length ps) by (cbn [List.length]; now rewrite map_length).
+    unfold call_out. rewrite get_mtable2, Hfl. cbn [option_map macro_of_fdef].
+    rewrite replace_fun_fmacro2; try assumption.
+    cbn [fmacro m_name]. fold (exM (S d) (a :: map snd more)).
+    apply (corrG d [Some (tt t); None]).
+    + apply okt2_set_w_hd. apply (sm_okt2 fs).
+      * apply okt2_set_w_hd. apply (forallb_impl (okf fs) (okt2 tb)); [apply (okf_okt2 fs)|assumption].
+      * now apply exM_okt2.
+    + apply rel_white. apply (rel_sm (tt t) ps (a :: map snd more) b (set_w_hd false b) (S d)); try assumption.
+      * lia.
+      * apply same_set_w.
+      * apply tx_set_w_hd. apply (forallb_impl (okf fs) tx); [|assumption].
+        intros x Hx. unfold okf in Hx. apply andb_true_iff in Hx. destruct Hx as [Hx _]. now apply okd_tx.
+Qed.
+
+Lemma outs_corr2 lead cat_fix str_white resub_fix va_fix d items :
+  Forall wf_src2 items -> List.length fs = S d ->
+  map sp (flat_map (item_out lead cat_fix str_white resub_fix va_fix tb d [None]) items)
+  = map sph (flat_map (sitem_out2 d) items).
+Proof.
+  intros H Hfs. induction H as [|i items Hi Hr IH]; [reflexivity|]. cbn [flat_map]. rewrite !map_app, IH.
+  now rewrite (item_corr2 lead cat_fix str_white resub_fix va_fix d i Hi Hfs).
+Qed.
+
+(* ---------- main theorem ---------- *)
+Theorem funlike2_main (lead cat_fix str_white resub_fix va_fix va_whole : bool) (max_level : nat) (items : list sitem) :
+  Forall wf_src2 items -> fs <> [] ->
+  S (S (List.length fs)) < max_level ->
+  exists n, forall fuel, n <= fuel ->
+    exists out,
+      expand lead cat_fix str_white resub_fix None false va_fix va_whole max_level tb fuel (flat_map stoks items) = Ok out /\
+      run_spec fuel stb (map btok_of (flat_map stoks items)) = Ok (map sp out).
+Proof.
+  intros Hitems Hne Hlev.
+  assert (Hnames : List.length (names tb) = List.length fs) by (unfold names, mtable2; now rewrite !map_length).
+  assert (Hsnames : List.length (snames stb) = List.length fs) by (unfold snames, stable2; now rewrite !map_length).
+  assert (Hpos : List.length fs <> 0) by (destruct fs; [contradiction|discriminate]).
+  set (d := Nat.pred (List.length fs)).
+  assert (Hfs : List.length fs = S d) by (unfold d; lia).
+  destruct (expand_src lead cat_fix str_white resub_fix va_fix va_whole max_level tb (Hobj2 fs Hwf) items) as (n1 & H1).
+  { rewrite Hnames. rewrite Forall_forall in Hitems |- *. intros i Hi. now apply wf_src2_sitem, Hitems. }
+  { now rewrite Hnames. }
+  { now rewrite Hnames. }
+  destruct (S_src2 d items Hitems) as (n2 & m2 & H2).
+  { now rewrite Hsnames. }
+  exists (n1 + n2 + m2 + 1). intros fuel Hf. eexists. split; [apply H1; lia|].
+  unfold run_spec. rewrite (table_ok2 fs Hwf). cbn [negb].
+  assert (Hokb : forallb okb (map btok_of (flat_map stoks items)) = true).
+  { rewrite forallb_forall. intros x Hx. apply in_map_iff in Hx. destruct Hx as (t & <- & Ht).
+    apply in_flat_map in Ht. destruct Ht as (i & Hi & Ht). rewrite Forall_forall in Hitems.
+    destruct (Hitems i Hi) as [Hokd _]. apply okd_okb. rewrite forallb_forall in Hokd. now apply Hokd. }
+  rewrite sdefined_plain by assumption.
+  rewrite map_map. change (fun x => lift [] (btok_of x)) with hl0.
+  replace fuel with (n2 + (fuel - n2)) by lia.
+  rewrite <- (app_nil_r (map hl0 (flat_map stoks items))).
+  rewrite (H2 (fuel - n2)) with (r := []); [| lia |].
+  2:{ destruct (fuel - n2) eqn:E; [lia|reflexivity]. }
+  rewrite app_nil_r. f_equal. rewrite Hnames. fold d.
+  rewrite (outs_corr2 lead cat_fix str_white resub_fix va_fix d items Hitems Hfs). reflexivity.
+Qed.
 End FunLikeG.
